@@ -381,9 +381,92 @@ def run_poly(c):
     return ck.result()
 
 
+# ------------------------------------------------------------------------------------------- collections with several axes
+@st.composite
+def jmc_case(draw, tier="quick"):
+    kind = draw(st.sampled_from(list(c01.KINDS)))
+    dim, op, nb = c01.KINDS[kind]
+    bases = [[draw(C.hpoint(dim, 9)) for _ in range(nb)] for _ in range(draw(st.sampled_from([2, 3, 5])))]
+    return {"d": dim, "kind": kind, "bases": bases, "coef": [draw(st.integers(-3, 3)), draw(st.sampled_from([1, -1, 2]))],
+            "m": draw(Z.params(9)), "mclass": draw(st.sampled_from(Z.MCLASSES)), "k": draw(st.sampled_from([1, 2, 3])), "grid": draw(st.sampled_from([[], [2], [3, 2], [2, 1], [1, 3]])),
+            "short": draw(st.sampled_from([None, None, 0, 1])), "tcoll": draw(st.booleans())}
+
+
+def run_jmc(c):
+    """the arguments are collections with up to three collection axes (shape grid + (k,)), one argument possibly with the last
+    axis only, and the map is a TransformationCollection of k maps (or one map): t * op(args) and op(t * args) agree with each
+    other and, position by position, with the single map applied to the single objects"""
+    kind, d = c["kind"], c["d"]
+    n = d + 1
+    k, grid = c["k"], tuple(c["grid"])
+    if k not in (1, 2, 3) or len(grid) > 2 or any(g not in (1, 2, 3) for g in grid) or not c["bases"]:
+        raise Skip("malformed")
+    shape = grid + (k,)
+    N = int(np.prod(shape))
+    singles = []
+    for pos in range(N):
+        base = [C.exact_vec(v) for v in c["bases"][pos % len(c["bases"])]]
+        if len(base) != c01.KINDS[kind][2]:
+            raise Skip("malformed")
+        args = c01.args_exact(kind, base, [Fraction(x) for x in c["coef"]])
+        if c01.exact_result(kind, args, n) is None:
+            raise Skip("not in general position")
+        singles.append([c01.build_single(a, [1, 0, 1], False, None) for a in args])
+    nargs = len(singles[0])
+    COLL = {G.Point: G.PointCollection, G.Line: G.LineCollection, G.Plane: G.PlaneCollection}
+    objs = []
+    for j in range(nargs):
+        o0 = singles[0][j]
+        if c.get("short") == j and grid:
+            # this argument has the last collection axis only (the same k objects for every grid position)
+            for pos in range(N):
+                singles[pos][j] = singles[pos % k][j]
+            arr = np.stack([singles[l][j].array for l in range(k)])
+        else:
+            arr = np.stack([singles[pos][j].array for pos in range(N)]).reshape(shape + o0.array.shape)
+        objs.append(COLL[type(o0)](arr))
+    if c.get("short") is not None and grid:
+        for pos in range(N):
+            base_args = [singles[pos][j] for j in range(nargs)]
+            r, f = call("single", lambda: (join if c01.KINDS[kind][1] == "join" else meet)(*base_args))
+            if f:
+                raise Skip("shared argument makes a position degenerate")
+    mats = [np.array(Z.class_matrix(c["m"][l:] + c["m"][:l], n, c.get("mclass", "projective")), float) for l in range(k)]
+    tcoll = c["tcoll"] and k > 1
+    t = G.TransformationCollection(np.stack(mats)) if tcoll else Transformation(mats[0])
+    op = join if c01.KINDS[kind][1] == "join" else meet
+    tag = f"{kind}:{'t-collection' if tcoll else 'single-t'}:axes{len(shape)}" + (":short-argument" if c.get("short") is not None and grid else "")
+    a, f = call(f"t*{tag}", lambda: t * op(*objs))
+    b, g = call(f"{tag}(t*)", lambda: op(*[t * o for o in objs]))
+    if f or g:
+        return [z for z in (f, g) if z]
+    ck = Checker()
+    el = singles[0][0].array.ndim if False else None
+    ok = ck.check(a.array.shape[: len(shape)] == shape and a.array.shape == b.array.shape, f"commute:{tag}:shape", (a.array.shape, b.array.shape, shape))
+    if not ok:
+        return ck.result()
+    naxes = a.array.ndim - len(shape)
+    ck.check(C.peq_all(a.array, b.array, naxes, 1e-7), f"commute:{tag}", C.short((a.array.tolist(), b.array.tolist())))
+    A = a.array.reshape((N,) + a.array.shape[len(shape):])
+    for pos in range(N):
+        tl = Transformation(mats[pos % k] if tcoll else mats[0])
+        r, f = call("single", lambda: tl * op(*singles[pos]))
+        if f:
+            ck.add(f)
+            break
+        if not ck.check(C.peq_all(A[pos], r.array, naxes, 1e-7), f"commute:{tag}:position-by-position", (pos, C.short(A[pos].tolist()), C.short(r.array.tolist()))):
+            break
+    return ck.result()
+
+
 LAWS = [
     Law("join_meet_commute", lambda tier: jm_case(tier), run_jm, nontrivial, lambda c: [c["kind"]], {"quick": 1200, "thorough": 30000},
         "t*join(..) = join(t*..), t*meet(..) = meet(t*..) for every arity/kind", shard=400),
+    Law("join_meet_commute_collections", lambda tier: jmc_case(tier), run_jmc, nontrivial,
+        lambda c: [c["kind"], f"axes{len(c['grid']) + 1}", "t-collection" if c["tcoll"] and c["k"] > 1 else "single-t"] + (["t-collection:axes3"] if c["tcoll"] and c["k"] > 1 and len(c["grid"]) == 2 else [])
+        + (["short-argument:axes3"] if c.get("short") is not None and len(c["grid"]) == 2 else []), {"quick": 700, "thorough": 15000},
+        "collections with one to three collection axes under one map or a collection of maps: t*op(args) = op(t*args) = single results position by position", shard=200,
+        mandatory=("t-collection:axes3", "short-argument:axes3")),
     Law("incidence", lambda tier: inc_case(tier), run_inc, nontrivial, lambda c: [c["cfg"], "on" if c["on"] else "off"], {"quick": 1200, "thorough": 30000},
         "contains before = contains after = exact truth value", shard=400),
     Law("quadric", lambda tier: quad_case(tier), run_quad, nontrivial, lambda c: [f"d{c['d']}", c["cls"]] + (["queried-before-transformed"] if c.get("used") else []) + (["complex"] if c.get("cplx") else []), {"quick": 800, "thorough": 20000},
